@@ -71,6 +71,15 @@ chk("C15", "exploration", "DESIGN.md 5/C15",
     "Iteration contents compared with table off only. Soft limit may stop deepening after any iteration under a time control.",
     "deterministic simulation: synctest bubble, simulated clock, seeded halt instants and gate credits")
 
+chk("C17", "exploration", "DESIGN.md 5/C17",
+    "Scheduled tier: 2..5 simulated clients issue tape-drawn Read/Write calls with unique payloads on one real table of 1..4 slots; they park before each call and at the table's own hook points (after the load, before each rank test, after a successful CAS), the seeded scheduler decides who advances; the history is checked with porcupine (partitioned by slot) against a one-slot model whose replacement relation is learned from the table's sequential behaviour; hits must return one single store's tuple; Used() within [0,1] at every quiescent point and equal to the occupied slots at the end. Free-running tier: the same kind of workload plus 'halted search still unwinding while its successor runs' under the race detector.",
+    "Linearizability is judged against the table's own sequential behaviour. The 'no data race' clause is decided by the -race tier only (runtime monitoring, statistically replayable): a serialising scheduler adds happens-before edges and hides races.",
+    "deterministic simulation: seeded interleavings at CAS/load hook points + porcupine linearizability; -race monitoring tier")
+chk("C18", "exploration", "DESIGN.md 5/C18",
+    "Several engines of one wiring (all four wirings, table off, noise off/on) in one bubble: a solo analysis first, then 2..3 engines with other Zobrist seeds (same seed when noise is on) analysing the same game side by side, the seeded scheduler interleaving their gated searches, optionally after a completed analysis of another position, then a repetition on one engine; every iteration (depth, score, PV, node count) must equal the solo run; Engine.Position() and all Engine.Board() getters compared before, during and after. Free-running tier: Analyze/Move/Analyze on one engine under the race detector (shared evaluator state and noise generator).",
+    "With noise on only completed analyses are compared. Data races are decided by the -race tier only.",
+    "deterministic simulation: several engines in one synctest bubble under a seeded scheduler vs solo runs; -race monitoring tier")
+
 def main():
     props = [json.loads(l) for l in open('/verif/properties.jsonl')]
     ids = [p['id'] for p in props]
